@@ -75,6 +75,12 @@ def in_band(kind, a):
     return False
 
 
+def _tolerance(kind, a, tv, sc):
+    """how far a reported volume may be from the quadrature `tv` of the profile: relative at every length scale, O(eps) in the eps bands"""
+    unit = max(1.0, abs(tv)) if sc == 1.0 else abs(tv) + 1e-9 * sc ** 3
+    return 1e-4 * unit if not in_band(kind, a) else max(1e-2, 5e-6 / max(a[0], 1e-300)) * unit
+
+
 # "all orientations / everywhere in space": distance of the solids from the origin in units of their own size. Volumes are
 # translation invariant, so the closed forms (which derive d and h from the stored centres) must not depend on it. 1e5 is a
 # whole-brain coordinate in micrometres next to a radius of 1; in float64 it costs ~1e-11 of relative accuracy.
@@ -287,9 +293,7 @@ class Closed(Suite):
         if "exc" in res:
             return [(f"{kind}-raises", f"{kind}{a} raised {res['exc']}: {res.get('msg')}")]
         tv = true_volume(kind, a)
-        sc = case.get("scale", 1.0)
-        unit = max(1.0, abs(tv)) if sc == 1.0 else abs(tv) + 1e-9 * sc ** 3      # relative at every length scale
-        tol = 1e-4 * unit if not in_band(kind, a) else max(1e-2, 5e-6 / max(a[0], 1e-300)) * unit
+        tol = _tolerance(kind, a, tv, case.get("scale", 1.0))
         if case.get("hand") == "f32":
             # the caller chose single precision: d / h of the rounded centres are computed in float32 (a few ulp, 2^-23 each), and
             # dV/dd, dV/dh are at most π·size² — ordinary rounding, relative to the solids and not to a thin lens
@@ -311,7 +315,231 @@ class Closed(Suite):
         return case["kind"] not in ("sphere",)
 
 
-SUITES = [Closed()]
+# ----------------------------------------------------------------------------------------------------------------------------
+# "equal the true volume" is a statement about the solids of ONE request. A caller does not ask one request per process: a soma
+# or a branch node lives on and is compared with one neighbour after the other, the neighbours being temporaries. So: one
+# long-lived solid (the hub), a SEQUENCE of closed-form requests on it, every answer judged on its own.
+#   inline   the partner is a temporary inside the request expression (gone when the volume is returned)
+#   rebound  the partner is a loop variable, rebound by the next request
+#   kept     every partner stays alive until the end of the session (and an earlier partner object can be asked again)
+LIFE = ["inline", "rebound", "kept"]
+PAIR = {"lens": "union2", "union2": "lens", "concentric": "sfunion", "sfunion": "concentric"}
+
+
+def _pick_partner(rng, g, kind, r1):
+    """one configuration of the kind for a hub sphere of radius r1 (same classes as Closed)"""
+    if kind in ("lens", "union2"):
+        r2 = g()
+        return rng.choice([
+            ([r1, r2, r1 + r2 + g()], "disjoint"), ([r1, r2, r1 + r2], "tangent-out"), ([r1, r2, abs(r1 - r2)], "tangent-in"),
+            ([r1, r2, abs(r1 - r2) * rng.random()], "nested"), ([r1, r2, 0.0], "concentric"),
+            ([r1, r2, rng.uniform(abs(r1 - r2), r1 + r2)], "proper"), ([r1, r2, rng.uniform(abs(r1 - r2), r1 + r2)], "proper"),
+            ([r1, r1, rng.uniform(0, 2 * r1)], "equal-radii")])
+    r2 = r1 * rng.uniform(0.05, 0.95)
+    r2s = r1 * rng.uniform(0.05, 0.6)
+    hs = math.sqrt(max(r1 * r1 - r2s * r2s, 0)) * rng.uniform(0.1, 0.9)
+    return rng.choice([
+        ([r1, r1 + g(), r1 + g()], "wide-high"), ([r1, r1 + g(), r1 * rng.uniform(0.05, 0.99)], "wide-low"), ([r1, r1, g()], "cylinder"),
+        ([r1, r2, r1 + g()], "narrow-high"), ([r1, r2, r1 * rng.uniform(0.3, 0.99)], "narrow-low"), ([r1, r2s, hs], "inside"),
+        ([r1, r2, r1], "h-eq-r1")])
+
+
+def _classify(a):
+    """class of a sphere / concentric frustum configuration [r1 (shared end), r2 (far end), h]"""
+    r1, r2, h = a
+    if r2 == r1:
+        return "cylinder"
+    if r2 > r1:
+        return "wide-high" if h >= r1 else "wide-low"
+    if h * h + r2 * r2 < r1 * r1:
+        return "inside"
+    return "narrow-high" if h >= r1 else "narrow-low"
+
+
+def _unit(seed):
+    import random as _r
+
+    q = _r.Random(seed)
+    u = np.array([q.gauss(0, 1) for _ in range(3)])
+    return u / np.linalg.norm(u)
+
+
+class Session(Suite):
+    name = "c13.session"
+    case_timeout = 60
+    repeat = 8
+
+    def cases(self, rng, tier, widen):
+        out = []
+        n = 12 if tier == "quick" and not widen else 72
+        g = lambda lo=0.125, hi=8.0: rng.randint(int(lo * 16), int(hi * 16)) / 16
+        for i in range(n):
+            hub = ("sphere", "sphere", "frustum")[i % 3]              # guaranteed share: every hub x every partner lifetime
+            life = LIFE[(i // 3) % 3]
+            sc = rng.choice([1.0, 1.0, 1.0, 1e-3, 1 / 64, 128.0, 1e-2])
+            if hub == "sphere":
+                r1 = g()
+                ha = [r1]
+            else:
+                ha, _ = _pick_partner(rng, g, "concentric", g())
+                if rng.random() < 0.5:
+                    ha = [ha[1], ha[0], ha[2]]                             # either taper direction
+            steps = []
+            for _ in range(rng.randint(5, 9)):
+                pairs = [j for j, st in enumerate(steps) if st["kind"] in PAIR]
+                if pairs and rng.random() < 0.25:
+                    # the same pair once more (the same object when it is still alive), for the same or the other combination
+                    j = rng.choice(pairs)
+                    st = dict(steps[j], same=steps[j].get("same", j))
+                    if rng.random() < 0.7:
+                        st["kind"] = PAIR[st["kind"]]
+                elif hub == "sphere":
+                    kind = rng.choice(["lens", "union2", "lens", "union2", "concentric", "sfunion", "concentric", "sfunion", "sphere", "cap"])
+                    if kind == "sphere":
+                        st = {"kind": kind, "a": [r1], "cls": "-"}
+                    elif kind == "cap":
+                        st = {"kind": kind, "a": [r1, rng.choice([0.0, r1, 2 * r1, rng.uniform(0, 2 * r1)])], "cls": "-"}
+                    else:
+                        a, cls = _pick_partner(rng, g, kind, r1)
+                        st = {"kind": kind, "a": a, "cls": cls, "dir": rng.randrange(10**6), "flip": rng.random() < 0.5}
+                else:
+                    kind = rng.choice(["concentric", "sfunion", "sfunion", "concentric", "sfunion", "frustum"])
+                    if kind == "frustum":
+                        st = {"kind": kind, "a": list(ha), "cls": "-"}
+                    else:
+                        end = rng.randrange(2)                                 # the sphere sits at either end of the hub frustum
+                        a = [ha[end], ha[1 - end], ha[2]]
+                        st = {"kind": kind, "a": a, "cls": _classify(a), "end": end}
+                if st["kind"] in PAIR:
+                    # who receives the call: hub.union(partner) / partner.union(hub); sphere ∩ frustum is closed-form on the sphere only
+                    if st["kind"] == "concentric":
+                        st["recv"] = "hub" if hub == "sphere" else "partner"
+                    else:
+                        st["recv"] = rng.choice(["hub", "hub", "partner"])
+                steps.append(st)
+            for st in steps:
+                st["a"] = [float(x) * sc for x in st["a"]]
+            out.append({"class": f"session/{hub}-hub/{life}" + ("" if sc == 1.0 else "/scaled"), "hub": hub, "ha": [float(x) * sc for x in ha],
+                        "life": life, "steps": steps, "scale": sc, "seed": rng.randrange(10**6)})
+        return out
+
+    def run(self, case):
+        from swcgeom.utils import VolFrustumCone, VolSphere
+
+        import random as _r
+
+        rng = _r.Random(case["seed"])
+        np.random.seed(case["seed"] % (2**31))
+        R, off = _rot(rng)
+        ha, life = case["ha"], case["life"]
+        if case["hub"] == "sphere":
+            ends, rad = [off], [ha[0]]
+            new_hub = lambda: VolSphere(off.copy(), ha[0])
+        else:
+            ends, rad = [off, off + ha[2] * (R @ np.array([0.0, 0.0, 1.0]))], [ha[0], ha[1]]
+            new_hub = lambda: VolFrustumCone(ends[0].copy(), rad[0], ends[1].copy(), rad[1])
+
+        # everything a partner is built from is computed BEFORE the session, so that a request is nothing but
+        # `hub.intersect(VolSphere(c, r)).get_volume()` — as in a caller's loop over precomputed node coordinates
+        recipe = []
+        for st in case["steps"]:
+            kind, a = st["kind"], st["a"]
+            if kind not in PAIR:
+                recipe.append(None)
+            elif case["hub"] == "frustum":
+                recipe.append((VolSphere, (ends[st["end"]].copy(), rad[st["end"]])))
+            elif kind in ("lens", "union2"):
+                recipe.append((VolSphere, (off + a[2] * _unit(st["dir"]), a[1])))
+            else:
+                far = off + a[2] * _unit(st["dir"])
+                recipe.append((VolFrustumCone, (far, a[1], off.copy(), a[0]) if st["flip"] else (off.copy(), a[0], far, a[1])))
+
+        def ask(hub, st, partner):
+            kind = st["kind"]
+            if kind in ("sphere", "frustum"):
+                return hub.get_volume()
+            if kind == "cap":
+                return hub.get_volume_spherical_cap(st["a"][1])
+            x, y = (hub, partner) if st["recv"] == "hub" else (partner, hub)
+            return (x.intersect(y) if kind in ("lens", "concentric") else x.union(y)).get_volume()
+
+        def session():
+            hub, kept, vols, p = new_hub(), {}, [], None
+            for i, st in enumerate(case["steps"]):
+                try:
+                    if st["kind"] not in PAIR:
+                        v = ask(hub, st, None)
+                    elif life == "inline":
+                        v = ask(hub, st, recipe[i][0](*recipe[i][1]))
+                    elif life == "rebound":
+                        p = recipe[i][0](*recipe[i][1])
+                        v = ask(hub, st, p)
+                    else:
+                        j = st.get("same")
+                        kept[i] = kept[j] if j in kept else recipe[i][0](*recipe[i][1])
+                        v = ask(hub, st, kept[i])
+                    vols.append(float(v))
+                except Exception as e:  # noqa: BLE001 - judged per request by the oracle
+                    vols.append({"exc": type(e).__name__, "msg": str(e)[:200]})
+            return vols
+
+        # the session is held twice, each time on a newly built hub: the first may be the first use of the library in the process,
+        # the second is what a caller sees at the second node of its loop. Every answer of both is judged.
+        first = session()
+        return {"v_first": first, "v": session()}
+
+    @staticmethod
+    def _vols(case, res, field="v"):
+        v = res.get(field) if isinstance(res, dict) else None
+        return v if isinstance(v, list) and len(v) == len(case["steps"]) else None
+
+    def lines(self, case, res):
+        vols = self._vols(case, res)
+        if vols is None:
+            return []
+        out, sc = [], case.get("scale", 1.0)
+        for st, v in zip(case["steps"], vols):
+            if not isinstance(v, float):
+                continue
+            t = 1e-7 if st["kind"] in ("sphere", "cap", "frustum", "lens", "union2") else 2e-6
+            out.append((f"vol f={st['kind']} a={','.join(repr(x) for x in st['a'])}", {"approx": [v], "rtol": t, "atol": t * min(1.0, sc) ** 3}))
+        return out
+
+    def oracle(self, case, res):
+        tag = f"session-{case['life']}"
+        if not isinstance(res, dict) or "exc" in res:
+            r = res if isinstance(res, dict) else {"exc": "malformed", "msg": repr(res)[:200]}
+            return [(f"session-raises/{case['hub']}-hub", f"a session of closed-form requests on one {case['hub']} raised {r['exc']}: {r.get('msg')}")]
+        first, vols = self._vols(case, res, "v_first"), self._vols(case, res)
+        if vols is None or first is None:
+            return [(f"session-malformed/{case['hub']}-hub", f"{len(case['steps'])} requests, answers: {str(res)[:300]}")]
+        bad, seen, sc = [], set(), case.get("scale", 1.0)
+        true = {}
+        for rnd, answers in (("second", vols), ("first", first)):
+            for i, (st, v) in enumerate(zip(case["steps"], answers)):
+                kind, a = st["kind"], st["a"]
+                before = ", ".join(f"{s['kind']}{s['a']}" for s in case["steps"][:i]) or "nothing"
+                where = (f" [request #{i + 1} on one long-lived {case['hub']} {case['ha']} ({rnd} such {case['hub']} of the process); partners {case['life']}"
+                         + (f", same pair as request #{st['same'] + 1}" if "same" in st else "") + f"; asked before: {before}]")
+                if isinstance(v, dict):
+                    key, msg = f"{kind}-raises/{tag}", f"{kind}{a} raised {v.get('exc')}: {v.get('msg')}{where}"
+                elif not isinstance(v, float) or not math.isfinite(v):
+                    key, msg = f"{kind}-volume/{st['cls']}/{tag}", f"{kind}{a}: reported {v!r}{where}"
+                else:
+                    tv = true[i] = true[i] if i in true else true_volume(kind, a)
+                    if abs(v - tv) <= _tolerance(kind, a, tv, sc):
+                        continue
+                    key, msg = f"{kind}-volume/{st['cls']}/{tag}", f"{kind}{a}: reported {v!r}, true volume (quadrature of the profile) {tv!r}{where}"
+                if key not in seen:
+                    seen.add(key)
+                    bad.append((key, msg))
+        return bad[:3]
+
+    def nontrivial(self, case, res):
+        return sum(1 for st in case["steps"] if st["kind"] in PAIR) >= 2
+
+
+SUITES = [Closed(), Session()]
 TECHNIQUE = "Lean 4 theorems over ℝ (interval integrals of the radius profile, disc method) about the volume formulas REGENERATED from the Python source on every run + Float cross-check of the generated terms + numerical quadrature oracle"
 LEVEL_TEXT = ("Kernel-checked over ℝ for all radii, heights and distances: the generated closed forms equal π∫ρ² of the solid's profile "
               "(sphere, cap, frustum, two-sphere lens in disjoint/nested/tangent/proper cases, sphere∩frustum in the code's cases, unions by "
